@@ -86,19 +86,19 @@ KANI_HARNESSES = {
     "k_sim_timer_ends": H("maybenot-simulator", "verif_proofs", "k_sim_timer_ends", "do_internal_timer", SIM,
                           bounded="two timer slots per side, frameworks without machines", default_tag="C18.safety"),
     "k_sim_peek_blocked": H("maybenot-simulator", "verif_proofs", "k_sim_peek_blocked", "queue_peek::peek_blocked_exp", SIMQ,
-                            bounded="whole-second offsets below 2^32", default_tag="C16.safety"),
+                            bounded="whole-second offsets below 2^16", default_tag="C16.safety"),
     "k_sim_no_normal": H("maybenot-simulator", "verif_proofs", "k_sim_no_normal", "queue_event::EventQueue::no_normal_packets", SIMQ,
                          bounded="one queued event of any kind, side and flags", default_tag="C15.safety"),
     "k_sim_queue_blocked": H("maybenot-simulator", "verif_proofs", "k_sim_queue_blocked", "queue_peek::peek_queue", SIMQ,
                              bounded="one queued TunnelSent event, whole-second offsets below 2^16, no network delay", default_tag="C16.safety"),
     "k_sim_peek_action_2": H("maybenot-simulator", "verif_proofs", "k_sim_peek_action_2", "queue_peek::peek_scheduled_action", SIMQ,
-                             bounded="one slot per side, whole-second offsets below 2^32", default_tag="C17.safety"),
+                             bounded="one slot per side, whole-second offsets below 2^16", default_tag="C17.safety"),
     "k_sim_peek_timer_2": H("maybenot-simulator", "verif_proofs", "k_sim_peek_timer_2", "queue_peek::peek_scheduled_internal_timer", SIMQ,
-                            bounded="one slot per side, whole-second offsets below 2^32", default_tag="C18.safety"),
+                            bounded="one slot per side, whole-second offsets below 2^16", default_tag="C18.safety"),
     "k_sim_peek_action": H("maybenot-simulator", "verif_proofs", "k_sim_peek_action", "queue_peek::peek_scheduled_action", SIMQ, tier="thorough",
-                           bounded="two client slots and one server slot, whole-second offsets below 2^32", default_tag="C17.safety"),
+                           bounded="two client slots and one server slot, whole-second offsets below 2^16", default_tag="C17.safety"),
     "k_sim_peek_timer": H("maybenot-simulator", "verif_proofs", "k_sim_peek_timer", "queue_peek::peek_scheduled_internal_timer", SIMQ, tier="thorough",
-                          bounded="two client slots and one server slot, whole-second offsets below 2^32", default_tag="C18.safety"),
+                          bounded="two client slots and one server slot, whole-second offsets below 2^16", default_tag="C18.safety"),
     "k_ffi_on_events_empty": H("maybenot-ffi", "verif_proofs", "k_ffi_on_events_empty", "maybenot_on_events (ffi.rs)", FFI,
                                bounded="an instance without machines (generator never used, all-zero value), two consecutive batches of 0 or 1 event, Instant::now stubbed",
                                default_tag="C20.safety"),
